@@ -137,6 +137,65 @@ Proof.
   apply orb_true_iff. right. unfold desired_now. unfold arith_of in Hc. rewrite Hb, Hc. exact Hrd.
 Qed.
 
+Lemma execute_enters_ready sp old s w s' w' rq err up :
+  execute sp old s w = Exec s' w' rq err up -> bs_state s' = SReady -> bs_phase s' = PhProgressing ->
+  (bs_state s = SReady /\ bs_batch s' = bs_batch s) \/ (bs_phase s = PhProgressing /\ bs_state s = SVerifying).
+Proof.
+  unfold execute. intros H Hst Hph.
+  repeat match type of H with
+  | context [match ?x with _ => _ end] => destruct x eqn:?; try discriminate
+  | context [if ?x then _ else _] => destruct x eqn:?; try discriminate
+  end; inversion H; subst; clear H; cbn in *; try discriminate; try congruence; auto.
+  all: try (unfold move_to_next in Hst; cbn in Hst; discriminate).
+Qed.
+
+Lemma sync_unobserved_stops sp st w s2 : sp_deleting sp = false -> w_exists w = true -> (w_obs_gen w <? w_gen w) = true ->
+  bs_phase st = PhProgressing -> bs_state st = SVerifying -> sync_status sp st w = (s2, false) ->
+  bs_state s2 = bs_state st -> bs_phase s2 = bs_phase st -> False.
+Proof.
+  intros Hd He Hu Hp Hs. unfold sync_status, sync_workload, is_progressing. rewrite Hd, He, Hu. cbn [negb]. destruct (bs_phase st) eqn:Hp'; try discriminate Hp. cbn [negb brphase_eqb orb andb].
+  destruct (sp_partition sp) as [p|]; cbn [orb].
+  2:{ intros H. inversion H; subst; clear H. cbn. try rewrite Hp'. discriminate. }
+  destruct (negb (String.eqb (bs_hash st) (sp_hash sp))); cbn [andb].
+  { intros H. inversion H; subst; clear H. cbn. rewrite Hs. discriminate. }
+  rewrite andb_true_r. destruct (zlen (sp_plan sp) <=? bs_batch st).
+  { intros H. inversion H; subst; clear H. cbn. try rewrite Hp'. discriminate. }
+  intros H. inversion H.
+Qed.
+
+(* C11: Ready is entered only on a workload status that is current *)
+Theorem ready_needs_a_current_status_holds sp st w r : reconcile sp st w = Some r -> ready_needs_a_current_status sp st w (obs_of r) = true.
+Proof.
+  unfold reconcile. intros H.
+  destruct (sp_deleting sp && brphase_eqb (bs_phase st) PhCompleted && sp_finalizer sp).
+  { inversion H; subst; clear H. unfold ready_needs_a_current_status, obs_of. cbn.
+    destruct (bstate_eqb (bs_state st) SReady); cbn; [|reflexivity]. rewrite Z.eqb_refl. cbn. now rewrite andb_false_r. }
+  destruct (sync_status sp st w) as [s2 stop] eqn:Hsync. pose proof (sync_shape _ _ _ _ _ Hsync) as [Hready _].
+  assert (Hsame : forall rq err up wl, ready_needs_a_current_status sp st w (obs_of {| r_status := set_gen_cond s2 (sp_generation sp) (bs_cond s2); r_workload := wl;
+                   r_finalizer := true; r_requeue := rq; r_err := err; r_upgraded := up |}) = true).
+  { intros. unfold ready_needs_a_current_status, obs_of. cbn.
+    destruct (bstate_eqb (bs_state s2) SReady) eqn:E; cbn; [|reflexivity].
+    apply bstate_eqb_eq in E. destruct (Hready E) as [E1 [E2 _]]. rewrite E1, E2, Z.eqb_refl. cbn. now rewrite andb_false_r. }
+  destruct (negb (status_eqb st s2)) eqn:Hretry; [inversion H; subst; apply Hsame|].
+  destruct stop; [inversion H; subst; apply Hsame|].
+  apply negb_false_iff in Hretry. apply status_eqb_eq in Hretry. subst s2.
+  destruct (execute sp st st w) as [|s' w' rq err up] eqn:Hex; [discriminate|]. inversion H; subst; clear H.
+  unfold ready_needs_a_current_status, obs_of. cbn.
+  destruct (bstate_eqb (bs_state s') SReady) eqn:E1; cbn; [|reflexivity].
+  destruct (brphase_eqb (bs_phase s') PhProgressing) eqn:E2; cbn; [|reflexivity].
+  apply bstate_eqb_eq in E1. apply brphase_eqb_eq in E2.
+  destruct (execute_enters_ready _ _ _ _ _ _ _ _ _ Hex E1 E2) as [[Hr Hb]|[Hp Hv]].
+  { rewrite Hr, Hb, Z.eqb_refl. reflexivity. }
+  destruct (bstate_eqb (bs_state st) SReady && (bs_batch st =? bs_batch s')); cbn; [reflexivity|].
+  destruct (w_exists w) eqn:He; cbn; [|reflexivity].
+  destruct (w_obs_gen w <? w_gen w) eqn:Hu; cbn; [|reflexivity]. exfalso.
+  destruct (sp_deleting sp) eqn:Hd.
+  - (* a deleting release in phase Progressing is moved to Finalizing by the sync: the status would have changed *)
+    revert Hsync. unfold sync_status. destruct (sync_workload sp _ w) as [ev hi]. rewrite Hp, Hd. cbn.
+    intros Hx. inversion Hx as [Hy]. apply (f_equal bs_phase) in Hy. cbn in Hy. rewrite Hp in Hy. discriminate.
+  - eapply sync_unobserved_stops; eauto.
+Qed.
+
 (* C11: Completed is reported only in the reconcile whose Finalize released the workload *)
 Theorem completed_means_released_holds sp st w r : reconcile sp st w = Some r -> completed_means_released sp st w (obs_of r) = true.
 Proof.
